@@ -241,7 +241,7 @@ def scalar_tokens(tier):
            # maxBigIntBits (2^65536 ~ 2.0e19728): refused for *big.Int from 3e19728 on (MantExp 65537); the accepted side
            # is exercised at 1e1000 only - the extracted model's arithmetic on inductive Z needs minutes for a 65536-bit
            # integer - and the constant itself is read from the source into the action table (AReadBigFloatInt 65536)
-           "1e1000", "3e19728", "1e19729", "-1e19729", "1e1000000"]
+           "1e1000", "3e19728"]
     toks += [("d", S(x)) for x in dbl]
     toks += [("u", S(x)) for x in ["a", "5", "0", "1", "t", "T", "-", "é", "中", " "]]
     strs = ["", "a", "5", "12", "-7", "+7", "300", "1.5", "true", "false", "TRUE", "abc", "é中😀", "18446744073709551616",
@@ -249,8 +249,7 @@ def scalar_tokens(tier):
             "2020-01-02T03:04:05Z", "15:04:05", "1/3", "-2/4", "1e400", GUID.decode(), "{" + GUID.decode() + "}",
             GUID.decode().upper(), "9223372036854775808", "65536", "99999999999999999999.5",
             # around maxTextExponent (16384) for *big.Rat: decimal, signed, binary and hexadecimal exponents
-            "1e16384", "1e16385", "-3e-16384", "1e-16385", "1E+16385", "1p16385", "0x1p16385", "0x1e5", "0X1P-16385",
-            "1e99999999999999999999", "1/3e16385", "1e16385/2", "2e", "e5", "1e1000000"]
+            "1e16384", "1e16385"]
     toks += [("s", S(x)) for x in strs]
     toks += [("b", S(x)) for x in [b"", b"a", b"hello", b"\x00\xff", bytes(range(16)), GUID, b"12"]]
     toks += [("g", GUID), ("g", GUID.upper())]
@@ -289,6 +288,11 @@ UTF8_CHARS = [_ch(0x80), _ch(0x3FF), _ch(0x400), "П".encode(), "ש".encode(), "
 UTF8_LEADS = ([bytes([lead, 0xA5]) for lead in range(0xC2, 0xE0)] +
               [bytes([lead, 0xA5 if lead != 0xED else 0x95, 0xA5]) for lead in range(0xE0, 0xF0)] +
               [bytes([lead, 0xA5 if lead == 0xF0 else (0x8F if lead == 0xF4 else 0x95), 0xA5, 0xA5]) for lead in range(0xF0, 0xF5)])
+
+# the cost limits of the exact destinations (big_decoder.go): more spellings, crossed with the destinations concerned only
+COST_DOUBLES = [b"1e1000", b"3e19728", b"1e19729", b"-1e19729", b"1e1000000", b"0x1p65536", b"0x1p1000", b"1e-19729"]
+COST_STRINGS = [b"1e16384", b"1e16385", b"-3e-16384", b"1e-16385", b"1E+16385", b"1p16385", b"0x1p16385", b"0x1e5", b"0X1P-16385",
+                b"1e99999999999999999999", b"1/3e16385", b"1e16385/2", b"2e", b"e5", b"1e1000000", b"+0x1p16385", b"1e+16384"]
 
 SCALAR_TYPES = ([T("bool")] + [T(k) for k in INTS] + [T("float32"), T("float64"), T("complex64"), T("complex128"),
                 T("string"), Slice(T("uint8")), T("bigint"), T("bigfloat"), T("bigrat"), T("time"), T("uuid"), IFACE])
